@@ -117,6 +117,10 @@ def op_pool(ctx, lays):
     pool = st.frame_pool(rng)
     for _ in range(10):
         ops.append({"kind": "stream", "S": st.garbage_stream(rng, pool, rng.randrange(3, 12)).hex(), "mode": 0})
+    # class and ID given as names - also names that do not belong together (the ID name of another class): whatever is built, silently
+    for cn, mn, mode in (("NAV", "NAV-PVT", 2), ("NAV", "CFG-MSG", 2), ("CFG", "NAV-PVT", 2), ("CFG", "ACK-ACK", 0), ("MGA", "MGA-GPS-EPH", 2), ("ACK", "NAV-CLOCK", 0),
+                         ("NAV", "CFG-MSG", 2), ("XYZ", "NAV-PVT", 0), ("NAV", "NAV-NOSUCH", 0)):
+        ops.append({"kind": "construct_names", "cls": cn, "id": mn, "mode": mode})
     # the same entry points with every option given positionally (a sample of each kind)
     for kind in ("parse", "construct", "stream"):
         same = [o for o in ops if o["kind"] == kind and not o.get("pos")]
